@@ -433,7 +433,7 @@ func (d *driver) execHistory(h *history) bool {
 
 func (d *driver) run() {
 	quick := d.tier == "quick"
-	nSteps, nCont, rounds := 10, 18, 1
+	nSteps, nCont, rounds := 10, 28, 1
 	if !quick {
 		nSteps, nCont, rounds = 12, 40, 3
 	}
